@@ -20,6 +20,7 @@ META = {
                     "weights are >= 0 and never tiny-positive (< 0.05), so 'weight sum is zero' is unambiguous",
                     "array cube with inferred shape only for N >= 1 (a dense array of zero rows carries no extent)"],
 }
+META["rule"] += '; round 7: weights that are all exactly 1 (one case in eight)'
 
 
 def shards(tier):
